@@ -94,7 +94,7 @@ func (g *conGen) target(cc *collCfg) ([]byte, bool) {
 func (g *conGen) read(allowSnap bool, allowIter bool) ConOp {
 	cc := g.pickColl()
 	mc := g.model[cc.Name]
-	kinds := []string{"get", "get", "getitem", "exist", "min", "max", "totals", "visit", "visit", "visit"}
+	kinds := []string{"get", "get", "getitem", "exist", "min", "max", "totals", "visit", "visit", "visit", "allocstats"}
 	if allowIter {
 		kinds = append(kinds, "iter", "iter")
 	}
@@ -259,7 +259,7 @@ func genConPlan(seed uint64, mode string) *ConPlan {
 	case 0:
 		cp.Armed = []string{"disk"}
 	case 1:
-		cp.Armed = []string{"disk", "cmp", "visitor", "cb"}
+		cp.Armed = []string{"disk", "cmp", "visitor", "cb", "lock"}
 		for _, h := range hookSites {
 			cp.Armed = append(cp.Armed, "hook-"+h)
 		}
@@ -273,6 +273,10 @@ func genConPlan(seed uint64, mode string) *ConPlan {
 			if r.Bool(0.5) {
 				cp.Armed = append(cp.Armed, "hook-"+h)
 			}
+		}
+		// every acquisition of rootLock and of the free-list locks
+		if r.Bool(0.3) {
+			cp.Armed = append(cp.Armed, "lock")
 		}
 	}
 	cp.Stay = []float64{0.3, 1, 1, 3, 10}[r.Intn(5)]
